@@ -20,11 +20,18 @@ RULE = ("boundary corpus (22 small documents squared: every scalar type change 1
         "(1.5 % of the strings, comments, trailing comments and 0.75 % of the keys carry such a character) "
         "(independent documents over one small key alphabet, and user files derived from the defaults), every "
         "case through the real load_config_toml under a fresh XDG_CONFIG_HOME, with a second and third load "
-        "after a first-run write; non-trivial = distinct case in which the user file sets at least one key "
+        "after a first-run write.  Round 5: 30 application names (dots: version suffixes, reverse-DNS, leading / trailing / doubled dot, "
+        "a name ending in .toml; unicode letters; spaces and shell characters; 200-250 bytes) each with a user file (half of them "
+        "put in place by save_config_toml) and as a first run, 20 % of the random cases under such a name; loads during which the "
+        "READ of the existing file fails (OSError EIO / EACCES / ESTALE / EINTR / EMFILE / ETIMEDOUT raised once by the read-mode "
+        "open, EIO / ESTALE / EISDIR by f.read(), the file in mode 0200 / 0000 under an unprivileged effective uid, a file that "
+        "is not UTF-8) on 4 document pairs x 12 faults and 6 % of the random cases with a user file, each followed by an ordinary load; "
+        "non-trivial = distinct case in which the user file sets at least one key "
         "the defaults also have, or a first-run file was written and re-read")
 
 APP = G.APP_DEFAULT
 OLD_NS = 1_000_000_000 * 10 ** 9      # mtime given to a pre-existing user file
+UNPRIVILEGED = 65534                  # effective uid/gid of a load that must not be able to read a mode-0200 file (when root)
 
 
 # ---------------------------------------------------------------------------------------
@@ -364,9 +371,17 @@ class Impl:
         before = self.stat()
         self.trace = []
         self.fault, self.fault_fired, self.exc = None, None, None
+        dropped = False
         if fault is not None and fault[0] == "chmod":
             os.chmod(self.path, fault[1])
             self.fault_fired = ("chmod", fault[1])
+            if os.geteuid() == 0:
+                # root may read every file: the load runs under an unprivileged effective uid that owns the tree
+                for dp, _, fs in os.walk(self.tmp):
+                    for x in [dp] + [os.path.join(dp, f) for f in fs]:
+                        os.chown(x, UNPRIVILEGED, UNPRIVILEGED)
+                os.seteuid(UNPRIVILEGED)
+                dropped = True
         elif fault is not None and fault[0] in ("open", "read"):
             self.fault = fault
         try:
@@ -376,6 +391,8 @@ class Impl:
             self.exc = ex
         finally:
             self.fault = None
+            if dropped:
+                os.seteuid(0)
             if fault is not None and fault[0] == "chmod":
                 os.chmod(self.path, 0o644)
         trace = self.trace
@@ -529,13 +546,21 @@ def main(argv=None):
                                   file_after=None if after is None else after[0].decode("utf-8", "replace")))
 
     is_root = hasattr(os, "geteuid") and os.geteuid() == 0
+    can_drop = False
+    if is_root:
+        try:
+            os.seteuid(UNPRIVILEGED)
+            os.seteuid(0)
+            can_drop = True
+        except OSError:
+            pass
     fault_wire, fault_expect = [], []
 
     for stream, d, u, opts in gen_cases(ck):
         ck.count(stream)
         app, fault = opts.get("app", APP), (opts.get("fault") if u is not None else None)
-        if fault is not None and fault[0] == "chmod" and is_root:
-            ck.count("read fault by file mode (0200 / 0000) skipped: the harness runs as root, which may read every file")
+        if fault is not None and fault[0] == "chmod" and is_root and not can_drop:
+            ck.count("read fault by file mode (0200 / 0000) skipped: the harness runs as root and cannot change its effective uid")
             fault = None
         replay = {"default_config": d.text, "user_file": None if u is None else u.text, "appname": app,
                   "call": f"XDG_CONFIG_HOME=<fresh dir>; load_config_toml({app!r}, default_config)"
@@ -587,7 +612,7 @@ def main(argv=None):
             # ---- round 5: a load during which the READ of the existing file fails.  The file is as it was, whatever the
             # load answers; the load after it (below) has the user's values.
             what = {"open": "the read-mode open of the file raises OSError(%s) once", "read": "f.read() raises OSError(%s) once",
-                    "chmod": "the file has mode %s while the load runs", "undecodable": "the file starts with bytes that are not UTF-8%.0s"}[fault[0]] \
+                    "chmod": "the file has mode %s while the load runs", "undecodable": "the file starts with the bytes FF FE '# not utf-8' LF, which are not UTF-8, followed by user_file%.0s"}[fault[0]] \
                 % (oct(fault[1]) if fault[0] == "chmod" else (os.strerror(fault[1]) if fault[1] else ""))
             replay = dict(replay, read_fault=what)
             v0, before0, after0, trace0 = impl.load(d.text, fault)
